@@ -7,7 +7,7 @@ from dqsa import trans, paths
 from .common import *
 from .sync_common import entry_point
 
-UNITS = ["queue", "apply", "source"]
+UNITS = ["queue", "apply", "source", "init"]
 
 
 def is_width_take(q, t):
@@ -217,6 +217,165 @@ def rule_MP6(rep, prog, q):
                 "returned and later barriers on the queue wait forever (or start early after an underflow)", sample={"reserve": len(res_), "relinquish": len(rel)})
 
 
+# sites that take the barrier (full width + IN_BARRIER) lock without the generic "no width in use" guard, one reason each
+BARRIER_TAKE_EXCEPTIONS = {
+    "_dispatch_lane_non_barrier_complete_try_lock": "last reader: converts its own returned width; guard is width field == FULL exactly (C04-MP4)",
+    "_dispatch_lane_non_barrier_complete": "same site seen through its inlined helper",
+    "_dispatch_queue_try_upgrade_full_width": "drainer upgrade: accounts for the width it owns (C04-TR2)",
+    "_dispatch_lane_drain_non_barriers": "re-acquire by the current barrier holder",
+    "_dispatch_queue_set_bound_thread": "thread-bound queue creation",
+    "_dispatch_queue_cleanup2": "main queue hand-over at main-thread exit",
+    "_dispatch_workloop_push_waiter": "workloops are serial (width 1): no reader can be in flight",
+    "_dispatch_queue_mgr_lock": "the manager queue is serial (width 1): runnable already means no width in use (guard shape checked by C02-TR1)",
+    "dispatch_source_cancel_and_wait": "sources are serial (width 1): runnable already means no width in use (guard shape checked by C02-TR1)",
+}
+
+
+def rule_TR7(rep, prog, q, ts):
+    import re
+    from .C02 import is_acquire
+    rid = rep.rule("C04-TR7", "writer exclusion at acquisition: every dq_state transition by which a thread takes the barrier lock of an unlocked queue "
+                   "(owner := self, IN_BARRIER, full width) is guarded by 'no width in use' - state + (dq_width-1)*WIDTH_INTERVAL < WIDTH_FULL_BIT - "
+                   "or by a pending barrier, or is an exact compare with the idle value", floor=4)
+    pat = re.compile(r"\+ \(\(.+ - 1\) \* %#x\)\) ult %#x" % (q.WIDTH_INTERVAL, q.WIDTH_FULL_BIT))
+    for t in ts:
+        if isinstance(t, trans.GiveUp) or not is_acquire(q, t):
+            continue
+        if not (t.new.k1 & q.IN_BARRIER) or (t.old.k1 & q.IN_BARRIER):
+            continue
+        if t.origin in BARRIER_TAKE_EXCEPTIONS or t.fn.name in BARRIER_TAKE_EXCEPTIONS:
+            continue
+        rep.saw(t.fn)
+        unused = any(pat.search(n) for n in t.old.notes)
+        pending = bool(t.old.k1 & q.PENDING_BARRIER)
+        exact = bool(t.old.eq_exprs)
+        rep.require(rid, unused or pending or exact, t.where, t.origin, "barrier-take-with-readers:%s" % t.origin,
+                    "%s takes the barrier lock on a path whose guards do not establish that no reader holds width (no 'state + (width-1)*INTERVAL < FULL' "
+                    "test, no pending barrier, no exact idle compare): a dispatch_barrier_sync waiter at the head is handed the queue while readers "
+                    "are still running" % t.origin, sample={"site": t.origin, "at": t.where, "guard": "unused-width" if unused else "pending-barrier" if pending else "exact"},
+                    details={"guards": t.old.notes})
+
+
+HANDOUTS = ("_dispatch_continuation_redirect_push", "_dispatch_non_barrier_waiter_redirect_or_wake")
+
+
+def rule_MP8(rep, prog, q):
+    rid = rep.rule("C04-MP8", "the concurrent drains hand an item out as a reader (redirect to the target / wake a sync reader) only after testing THAT item "
+                   "with _dispatch_object_is_barrier since it became the current item - on every way into the loop, including re-entry after the DIRTY "
+                   "re-check - and the barrier outcome never reaches a hand-out", floor=4)
+    n = 0
+    for name in ("_dispatch_lane_drain_non_barriers", "_dispatch_lane_drain"):
+        fn = prog.fn(name)
+        rep.saw(fn)
+        hand = calls_named(fn, HANDOUTS)
+        tests = calls_named(fn, "_dispatch_object_is_barrier")
+        srcs = calls_named(fn, ("_dispatch_queue_pop_head", "_dispatch_queue_get_head")) + \
+            [l for l in fn.all_insts() if l.op == "load" and "dq_items_head" in prog.fields(l)]
+        if not hand or not tests or not srcs:
+            rep.unknown(rid, "anchor vanished in %s (hand-outs=%d barrier tests=%d item sources=%d)" % (name, len(hand), len(tests), len(srcs)))
+            continue
+        # where a freshly obtained item becomes "the current item": the phis that merge it
+        for s_ in srcs:
+            merge = set()
+            work, seen = [s_], set()
+            while work:
+                v = work.pop()
+                if v.id in seen:
+                    continue
+                seen.add(v.id)
+                for u in fn.users(v):
+                    if u.op == "phi":
+                        merge.add(u.block.id)
+                    elif u.op in ("bitcast", "inttoptr", "ptrtoint"):
+                        work.append(u)
+            if not merge:
+                continue
+            n += 1
+            # phase 1: from the point the item is obtained to the merge, untested; phase 2: from the merge to a hand-out, still untested
+            bad = None
+            for kind, inst, cx, path in paths.walk(fn, s_, lambda i: i.block.id in merge and i.idx == 0, avoid=lambda i: i in tests):
+                if kind != "hit":
+                    continue
+                class _S: pass
+                st = _S(); st.block = inst.block; st.idx = -1; st.loc = inst.loc
+                for k2, i2, c2, p2 in paths.walk(fn, st, lambda i: i in hand, avoid=lambda i: i in tests, ctx=cx):
+                    if k2 == "hit":
+                        bad = (i2, path + p2)
+                        break
+                if bad:
+                    break
+            rep.require(rid, bad is None, s_.loc, fn.name, "reader-handout-without-barrier-test",
+                        "%s: the item obtained at %s can become the current item and be handed out as a reader (%s, path %s) without having been tested for a "
+                        "barrier: a barrier that just became the head runs alongside the readers handed out before it"
+                        % (name, s_.loc, bad[0].loc if bad else "", bad[1] if bad else ""), sample={"fn": name, "source": s_.loc, "merged_in": sorted(merge)})
+        for t in tests:
+            n += 1
+            ctx = paths.PathCtx(fn)
+            ctx.truth[t.id] = True
+            ctx.learn(("i", t.id), True)
+            res = paths.walk(fn, t, lambda i: i in hand, avoid=lambda i: i in tests and i is not t, ctx=ctx)
+            hits = [r for r in res if r[0] == "hit"]
+            rep.require(rid, not hits, t.loc, fn.name, "barrier-outcome-reaches-handout",
+                        "%s: the 'is a barrier' outcome of the test at %s still reaches a reader hand-out (%s)" % (name, t.loc, hits[0][1].loc if hits else ""),
+                        sample={"fn": name, "test": t.loc})
+    if n < 4:
+        rep.unknown(rid, "fewer than 4 obligations formed (%d)" % n)
+
+
+def rule_SB9(rep, prog, q):
+    from .C06 import _ceval
+    rid = rep.rule("C04-SB9", "classification agreement: every object type on which the library sets DQF_BARRIER_BIT (sources whose handler is a barrier "
+                   "block, e.g. delayed dispatch_after) is classified by _dispatch_object_is_barrier through that flag, not by the early 'not a queue' exit", floor=1)
+    k = consts.get(["DQF_BARRIER_BIT"])
+    fn = prog.fn("_dispatch_object_is_barrier")
+    rep.saw(fn)
+    # who sets the flag, and on which object type
+    stems = set()
+    for f in prog.all_functions():
+        for c in f.all_insts():
+            if c.op == "call" and "_dispatch_queue_atomic_flags_set" in (c.callee or "") and len(c.ops) > 1 and c.ops[1][0] == "c" and (c.ops[1][1] & k["DQF_BARRIER_BIT"]):
+                r = c.ops[0]
+                i = f.inst(r)
+                while i is not None and i.op in ("bitcast", "getelementptr"):
+                    r = i.ops[0]
+                    i = f.inst(r)
+                ty = (f.params[r[1]][1] if r[0] == "a" else (i.d.get("ty", "") if i is not None else ""))
+                for stem in ("source", "lane", "workloop", "mach", "queue"):
+                    if "dispatch_%s_s" % stem in ty:
+                        stems.add(stem)
+    if not stems:
+        rep.unknown(rid, "no site setting DQF_BARRIER_BIT found")
+        return
+    vts = []
+    for u, m in prog.modules.items():
+        for name, g in m.globals.items():
+            if name.startswith("__OS_dispatch_") and name.endswith("_vtable") and g.get("init") and any("_%s" % st in name for st in stems):
+                try:
+                    vts.append((name, int(g["init"][2][0])))
+                except Exception:
+                    pass
+    vts = sorted(set(vts))
+    tl = [l for l in fn.all_insts() if l.op == "load" and "do_type" in prog.fields(l)]
+    fl = [l for l in fn.all_insts() if l.op == "load" and "dq_atomic_flags" in prog.fields(l)]
+    if not vts or len(tl) != 1 or len(fl) != 1:
+        rep.unknown(rid, "anchor vanished: vtables=%d do_type loads=%d dq_atomic_flags loads=%d" % (len(vts), len(tl), len(fl)))
+        return
+    tl, fl = tl[0], fl[0]
+    brs = [b for b in fn.all_insts() if b.op == "br" and b.ops and fn.inst(b.ops[0]) is not None and fn.inst(b.ops[0]).op == "icmp"
+           and _ceval(fn, b.ops[0], tl, 0) is not None]
+    if len(brs) != 1:
+        rep.unknown(rid, "expected one branch on do_type in _dispatch_object_is_barrier, found %d" % len(brs))
+        return
+    br = brs[0]
+    for name, v in vts:
+        taken = br.block.succs[0 if _ceval(fn, br.ops[0], tl, v) else 1]
+        reach = fn.reach_from_block(taken.id)
+        rep.require(rid, fl.block.id in reach or fl.block.id == taken.id, br.loc, fn.name, "barrier-flag-ignored:%s" % name,
+                    "_dispatch_object_is_barrier returns 'not a barrier' for objects of type %#x (%s) without looking at DQF_BARRIER_BIT, which the library sets on "
+                    "such objects: a DISPATCH_BLOCK_BARRIER handler delivered through a source (delayed dispatch_after, timer) is admitted to a concurrent "
+                    "queue as a reader" % (v, name), sample={"vtable": name, "do_type": hex(v)})
+
+
 def run(rep, tier="quick", srcdir=None, only=None):
     prog, units = load(UNITS, tier, srcdir)
     rep.units = units
@@ -239,6 +398,12 @@ def run(rep, tier="quick", srcdir=None, only=None):
         rule_SB5(rep, prog, q)
     if want("C04-MP6"):
         rule_MP6(rep, prog, q)
+    if want("C04-TR7"):
+        rule_TR7(rep, prog, q, ts)
+    if want("C04-MP8"):
+        rule_MP8(rep, prog, q)
+    if want("C04-SB9"):
+        rule_SB9(rep, prog, q)
 
 
 def run_thorough(rep, srcdir=None, only=None):
